@@ -5,6 +5,7 @@ Imports only Model/Spec/Driver so that `drv_C19` links independently of the proo
 import CaddyModel.C19.Spec
 import CaddyModel.C19.Driver
 import CaddyModel.C19.ClientAuth
+import CaddyModel.C19.Quic
 
 namespace CaddyModel.C19
 
@@ -205,6 +206,22 @@ theorem multi_port_block_aliasing_old_code_fails :
 -- with its own name in the matcher (what the Caddyfile means) the client-auth policy is chosen
 example : choose false [⟨[.sni [wATest]], false, true⟩, ⟨[], false, false⟩] ⟨wATest, fun _ => false⟩ = .config 0 := by decide
 
+/-! ### HTTP/3: a cancel function that does not unregister leaves a CLOSED config active -/
+
+/-- if only the config that created the listener gets the wrapping cancel function and later ones
+    the bare `context.CancelFunc` (one return path of `addState` returning `cancel` instead of
+    `wrappedCancel`), the first reload still works, but after the second one the ClientHello is
+    answered by config 2 — whose server has stopped — although only config 3 runs: the policy list
+    consulted over HTTP/3 is a stale one.  (The code hands out the wrapping function on both
+    paths: `Props.quic_reloads_consult_newest`.) -/
+theorem bare_cancel_consults_closed_config :
+    ∃ s answers, qrun (fun k => k == 1) QState.init [] (reloads 2) = some (s, answers) ∧
+      answers = [some 1, some 1, some 2, some 2, some 2] ∧ s.active = 2 ∧ s.openL = [3] :=
+  ⟨_, _, rfl, by decide, by decide, by decide⟩
+
+example : qrun allWrapped QState.init [] (reloads 2) =
+    some (⟨1, [3], 3, [3]⟩, [some 1, some 1, some 2, some 2, some 3]) := by decide
+
 /-! ### `Active()` is not stable under provisioning -/
 
 /-- a block with verifier modules only: the built tls.Config requires a certificate, yet `Active()`
@@ -231,6 +248,8 @@ theorem swallowed_ca_load_error :
 def witnessLines : List String := [
   "C19 pol 0 -/~/~;-/612e74657374/~;-/7a7a2e74657374/~;-/7a7a2e74657374/~;-/7a7a2e74657374/~;-/7a7a2e74657374/~;-/7a7a2e74657374/~;-/7a7a2e74657374/~;-/7a7a2e74657374/~;-/7a7a2e74657374/~;-/7a7a2e74657374/~;-/7a7a2e74657374/~;-/7a7a2e74657374/~;-/7a7a2e74657374/~;-/7a7a2e74657374/~;-/7a7a2e74657374/~;-/7a7a2e74657374/~;-/7a7a2e74657374/~;-/7a7a2e74657374/~;-/7a7a2e74657374/~;-/7a7a2e74657374/~;-/7a7a2e74657374/~;-/7a7a2e74657374/~;-/7a7a2e74657374/~;-/7a7a2e74657374/~;-/7a7a2e74657374/~;-/7a7a2e74657374/~;-/7a7a2e74657374/~;-/7a7a2e74657374/~;-/7a7a2e74657374/~;-/7a7a2e74657374/~ 612e74657374/0/6/1000011010111110",
   "C19 enf t . 7365637265742e74657374 1/5b7365637265742e746573745d/5b7365637265742e746573745d",
+  -- three reloads of an HTTP/3 listener, a ClientHello after every step (ready-made failing input for a stale active config)
+  "C19 quic o1,p,o2,p,c1,p,o3,p,c2,p,o4,p,c3,p",
   -- verifier-only block (Active() flips with provisioning) and a CA file that does not load
   "C19 ca 1000010",
   "C19 ca 1002000"
